@@ -54,6 +54,10 @@ func weakScalar(r *h.Rand) interface{} {
 	case 1:
 		return r.Bool()
 	case 2:
+		if r.Chance(30) {
+			// whole numbers written with an exponent, at and beyond the 64-bit integer range: a float in all three formats
+			return []float64{1e19, 1e21, 9223372036854775808, 1.8446744073709552e19, 1e15, -1e19}[r.Intn(6)]
+		}
 		return float64(r.Range(1, 99)) + 0.5
 	case 3:
 		// text that looks like syntax of one of the formats (comment openers and closers, a comma before a bracket,
